@@ -63,19 +63,19 @@ Example C08_refuted_bool :
   match resolve lib_st 6 "XSDSimpleTypeMidi16" with Some r => fst (SimpleType.run r (VBool true)) = Ok /\ fst (SimpleType.run r (VStr (cp "True"))) = TypeErr /\ py_int_model (cp "True") = None | None => False end.
 Proof. vm_compute. auto. Qed.
 
-(* ---- whole documents: what the library emits from a consistent element tree (every node in a reachable state of its type's template, the
+(* ---- whole documents: what the library emits from a consistent element tree (every node in a reachable state of its type's machine, the
    ids of the schema-ordered view pointing at children with the recorded tags) is a schema-shaped document, the parser reads it, and the
-   element it builds emits the same document again (Model/Doc.v, any depth; element types of the sequence class) ---- *)
+   element it builds emits the same document again (Model/Doc.v, any depth; element types of the sequence and bag classes) ---- *)
 From MX Require Import Gen.Names Gen.Schema Gen.Templates Gen.Lib Spec.Equiv Model.Tables Model.SeqIds Model.Doc Model.DocTables.
 Lemma cm_rows_ok8 : forallb cm_row_ok cm_rows = true.
 Proof. vm_compute. reflexivity. Qed.
-Theorem C08_document_roundtrip : forall e d, elt_ok elem_tpl e -> emit e = Some d -> exists e', parse elem_tpl d = Some e' /\ emit e' = Some d.
-Proof. exact (emitted_roundtrips elem_tpl). Qed.
+Definition rows_ok8 : forall r, In r cm_rows -> cm_row_ok r = true := fun r I => forallb_In _ _ _ cm_rows_ok8 I.
+Theorem C08_document_roundtrip : forall e d, doc_elt_ok e -> doc_emit e = Some d -> exists e', doc_parse d = Some e' /\ doc_emit e' = Some d.
+Proof. exact (tables_emitted_roundtrips rows_ok8). Qed.
 Print Assumptions C08_document_roundtrip.
 (* and a second round trip is the identity on the document *)
-Theorem C08_second_roundtrip_identical : forall d e, parse elem_tpl d = Some e -> forall d', emit e = Some d' ->
-  valid elem_tpl d -> d' = d.
+Theorem C08_second_roundtrip_identical : forall d e, doc_parse d = Some e -> forall d', doc_emit e = Some d' -> schema_valid d -> d' = d.
 Proof.
-  intros d e P d' E V. destruct (doc_roundtrip elem_tpl d V) as (e0 & P0 & E0). rewrite P in P0. injection P0 as <-. rewrite E in E0. injection E0 as <-. reflexivity.
+  intros d e P d' E V. destruct (tables_doc_roundtrip rows_ok8 d V) as (e0 & P0 & E0). rewrite P in P0. injection P0 as <-. rewrite E in E0. injection E0 as <-. reflexivity.
 Qed.
 Print Assumptions C08_second_roundtrip_identical.
